@@ -73,7 +73,7 @@ def guided_history(rng, length, universe):
 class C12(Property):
     id = "C12"
     families = ["store"]
-    rule = "random update histories (length 5-60) over label universes of 2-8 labels, half of them state-aware (most operations valid on the current framework: existing attacks removed with a bias to older ones, hub arguments collecting many attacks, removed labels re-added), incl. self-attacks, re-insertion of removed labels, repeated removals, invalid operands; plus constructor routes (new_with_labels, new_with_argument_set after set-level removals); after every operation all observers incl. iteration orders are compared with the Lean model, and the model state with the abstract set model; non-trivial = history with at least one removal and one attack"
+    rule = "random update histories (length 5-60) over label universes of 2-8 labels (one in 25: 80-250 operations over 12-30 labels), half of them state-aware (most operations valid on the current framework: existing attacks removed with a bias to older ones, hub arguments collecting many attacks, removed labels re-added), incl. self-attacks, re-insertion of removed labels, repeated removals, invalid operands; plus constructor routes (new_with_labels, new_with_argument_set after set-level removals); after every operation all observers incl. iteration orders are compared with the Lean model, and the model state with the abstract set model; non-trivial = history with at least one removal and one attack"
     assumptions = ["std::collections::HashMap modelled as a finite map", "labels instantiated at usize"]
 
     def cases(self, tier, rng):
@@ -84,6 +84,10 @@ class C12(Property):
             universe = rng.sample(range(1, 40), u)
             length = rng.randint(5, 60 if tier != "quick" else 40)
             ops = rand_history(rng, length, universe) if i % 2 == 0 else guided_history(rng, length, universe)
+            if i % 25 == 7:
+                # large histories: 12-30 labels, 80-250 operations, hubs with many attacks, many tombstones
+                big = rng.sample(range(1, 200), rng.randint(12, 30))
+                ops = guided_history(rng, rng.randint(80, 250), big)
             if i % 10 == 0:
                 init = rng.sample(universe, rng.randint(0, u))
                 if rng.random() < 0.3 and init:
